@@ -51,14 +51,19 @@ Definition s_result (r : outcome bytes (sfe N)) : sexp :=
 Definition s_response (r : response) : sexp :=
   Lst [sN (rs_status r); sbytes (rs_body r); sopt sbytes (rs_error_header r);
        sopt sbytes (rs_location r); sopt sbytes (rs_content_type r)].
-Definition glue_server (ref : option referer) : request -> response :=
-  run_on_server N u8_display bytes bytes str_dec str_enc KDeserialization L_text_plain L_api_glue
+(** the same function behind Post / Patch / Put (selector 0 / 1 / 2): only the path differs *)
+Definition glue_path (sel : N) : bytes :=
+  if sel =? 1 then L_api_glue ++ [95; 112; 97; 116; 99; 104]      (* "_patch" *)
+  else if sel =? 2 then L_api_glue ++ [95; 112; 117; 116]         (* "_put" *)
+  else L_api_glue.
+Definition glue_server (sel : N) (ref : option referer) : request -> response :=
+  run_on_server N u8_display bytes bytes str_dec str_enc KDeserialization L_text_plain (glue_path sel)
     demo_body (fun _ => match ref with Some r => r | None => RefRaw [] end).
 Definition glue_client_result : response -> outcome bytes (sfe N) * list bytes :=
   client_result N u8_parse bytes str_dec.
-Definition glue_remote (x : bytes) : outcome bytes (sfe N) * list bytes :=
+Definition glue_remote (sel : N) (x : bytes) : outcome bytes (sfe N) * list bytes :=
   remote N u8_display u8_parse bytes bytes str_enc str_dec str_enc str_dec KDeserialization
-    L_text_plain L_text_plain L_api_glue demo_body (fun _ => RefRaw []) x.
+    L_text_plain L_text_plain (glue_path sel) demo_body (fun _ => RefRaw []) x.
 
 Definition run_C13 (c : sexp) : sexp :=
   let cust := as_N (nth_s 1 c) in
@@ -110,14 +115,21 @@ Definition run_C13 (c : sexp) : sexp :=
   (* server side on a raw request *)
   | 8%Z =>
       let ref := as_referer (nth_s 3 c) in
-      s_response (glue_server ref
+      s_response (glue_server (as_N (nth_s 4 c)) ref
         {| rq_data := as_bytes (nth_s 1 c); rq_accept := as_opt as_bytes (nth_s 2 c);
            rq_referer := option_map referer_string ref |})   (* only its presence matters: glue_server's parse_referer is the constant [ref] *)
   (* the whole loop, and the direct call *)
   | 9%Z =>
       let x := as_bytes (nth_s 1 c) in
-      let r := glue_remote x in
+      let r := glue_remote (as_N (nth_s 2 c)) x in
       Lst [s_result (fst r); Lst (map sbytes (snd r));
            s_result (direct N bytes bytes demo_body x)]
+  (* from_server_fn_error *)
+  | 16%Z =>
+      let k := as_N (nth_s 2 c) in
+      let m := as_bytes (nth_s 3 c) in
+      let e := if k =? 10 then Unsupported m else EE (kind_of_index k) m in
+      if cust =? 0 then s_err nc_display (from_server_fn_error e)
+      else s_err u8_display (from_server_fn_error e)
   | _ => Lst []
   end.
